@@ -92,7 +92,8 @@ EXPR_ALPHABET = [b'x', b'1', b'|', b'|:', b'(', b')', b'[', b']', b'&', b'+', b'
 def _statement_soup(tier, rng):
     """short token sequences where an expression, a statement or a constant value is expected (and at the end of the file):
     all of length <= 2 (thorough: <= 3), a random sample of length 3 (thorough: 4)"""
-    contexts = [(b'fn f(x: []u8) { var n = ', b'; }'), (b'fn f(x: []u8) { ', b' }'), (b'const N: usize = ', b';'), (b'fn f(x: []u8) { var n = ', b'')]
+    contexts = [(b'fn f(x: []u8) { var n = ', b'; }'), (b'fn f(x: []u8) { ', b' }'), (b'const N: usize = ', b';'), (b'fn f(x: []u8) { var n = ', b''),
+                (b'fn f(x: []u8) { if x == 1 ', b''), (b'fn f(x: []u8) { if ', b' }'), (b'fn f(x: []u8) { if x == 1 { } else ', b'')]
     full = 2 if tier == 'quick' else 3
     for k in range(1, full + 1):
         for combo in itertools.product(EXPR_ALPHABET, repeat=k):
